@@ -39,9 +39,9 @@ def finish_refuted(rep, pv, refuted, bounded_search=None):
         replay = {'obligation': name, 'function': m.get('function') or c.qualname, 'counter_model_inputs': vals,
                   'solver_output': (mdl or model or '')[:4000], 'kind': 'pyvc-counter-model'}
         native = None
-        if vals is not None:
+        if True:
             try:
-                native = c.replay(vals)
+                native = c.replay(vals if vals is not None else {})
             except Exception as e:       # replay harness problem: keep as no-input
                 native = None
                 replay['replay_error'] = repr(e)
@@ -77,3 +77,17 @@ def canary(rep, pv, name, hyps, goal):
     rep.extra.setdefault('canaries', []).append({'name': name, 'status': st})
     if st != 'refuted':
         rep.error(f'canary {name} was not refuted (status {st}): engine unsound or vacuous')
+
+
+def run_bounded(rep, prop, quick):
+    """run the bounded stand-in driver of a property (if present and not disabled)"""
+    import importlib
+    if env.os_environ_flag('VERIF_NO_BOUNDED'):
+        rep.assume('bounded layer disabled by VERIF_NO_BOUNDED for this run')
+        return
+    try:
+        B = importlib.import_module(f'vlib.bounded.{prop}')
+    except ImportError as e:
+        rep.assume(f'bounded driver for {prop} not present in this build ({e})')
+        return
+    B.run_bounded(rep, quick)
